@@ -46,6 +46,7 @@ ASSUMPTIONS = [
 
 NODE_LIMIT = 6000
 INTER_TIMEOUT = 20.0
+SLOW_INTER_TIMEOUT = 75.0
 ITER_OPS = ("exhaust", "take_close", "take_drop", "take_cycle")
 WHOLE_OPS = ("is_valid", "validate", "tree", "best_match", "consumer_raises")
 OTHER_TYPES = {"string": "integer", "integer": "string", "number": "boolean", "boolean": "number",
@@ -793,15 +794,18 @@ def run_schedule(scn, alone, fork_call):
         if "timed out" not in str(e):
             raise
         try:
-            fork_call(exec_inter, scn, timeout=INTER_TIMEOUT)     # once more: a hang must be reproducible
-            raise HarnessError("C18 interleaved child timed out once, then finished: " + str(e)[-300:])
+            # once more, with much more time: a tree that uses real locks makes the scheduler wait for its watchdog
+            # at every contended acquisition, and on a loaded machine that alone can exceed the first deadline - a
+            # run that is merely slow finishes now and is used; a hang is a hang both times
+            inter = fork_call(exec_inter, scn, timeout=SLOW_INTER_TIMEOUT)
+            inter["stats"]["interleaved_run_needed_the_long_deadline"] = 1
         except HarnessError as e2:
-            if "timed out" not in str(e2) or "then finished" in str(e2):
+            if "timed out" not in str(e2):
                 raise
-        # every actor finished alone (in its own child); together they never finish: interference by blocking
-        return [{"oracle": "interleaved-run-hung", "where": 0,
-                 "detail": {"timeout_s": INTER_TIMEOUT, "mode": sched["mode"],
-                            "alone_ops": [len(a["outcomes"]) for a in alone]}}], None
+            # every actor finished alone (in its own child); together they never finish: interference by blocking
+            return [{"oracle": "interleaved-run-hung", "where": 0,
+                     "detail": {"timeout_s": [INTER_TIMEOUT, SLOW_INTER_TIMEOUT], "mode": sched["mode"],
+                                "alone_ops": [len(a["outcomes"]) for a in alone]}}], None
     violations = list(inter["violations"])
     for i in range(n):
         exp, got = alone[i]["outcomes"], inter["outcomes"][i]
